@@ -208,6 +208,13 @@ func htmlBoundaryInputs() []string {
 			add(strings.Repeat("a", n) + "<script>alert(1)</script>")
 			add("<a title='" + strings.Repeat("a", n) + "' href=javascript:alert(1)>")
 		}
+		// very long inputs whose attack shows in one start context only
+		for _, n := range []int{65536 + 1, 1<<20 + 1, 4<<20 + 33} {
+			pad := strings.Repeat("lorem ipsum ", n/12+1)[:n]
+			for _, v := range []string{"\" onmouseover=alert(1) x=\"", "' onerror=alert(1) x='", "` onload=alert(1) x=`", " onclick=alert(1) ", "'><script>"} {
+				add(pad + v)
+			}
+		}
 		// characters whose case mapping changes their UTF-8 length, in names, comments and values
 		for _, r := range caseLengthChangers() {
 			w5 := strings.Repeat(r, 5)
